@@ -17,6 +17,9 @@ claimed={
 "C12":dict(level_text="Coq proof of cleanup exactness and confinement, idempotence, and convergence after a crash at any write k / any byte b / any subset of removals — for all plans and prior trees, under the two hypotheses the proofs force (generated text free of directives; the interrupted file carried no `after` prefix), each shown necessary by a refutation theorem and reproduced on the real CLI as an open known finding. Correspondence: real aborted processes (cfg(libninja_verif) hook) against the model's crash states, trees byte for byte.",
   design_ref="DESIGN.md 7 (C10-C12), 8",
   note="As C10. Two open known findings (known_findings.json): prefix lost when the rewrite of an after-marked file is interrupted; directive text inside generated code."),
+"C19":dict(level_text="Coq proofs over Z with explicit i64/i32 casts that each adapter deserialises what it serialises to the same value for ALL i64 / all valid dates of years 1..9999 (zero and the empty string mapping to absent), and that any wire value that deserialises to a present value denotes exactly that value (soundness of the decimal parser, of the u64/i64 dispatch and of the YYYYMMDD split). The model is tied to the template files, compiled verbatim into the harness and driven through serde_json, on ~62k values and wire forms per run. The `emitted exactly when needed` clause is decided with the emission model (see notes).",
+  design_ref="DESIGN.md 7 (C19)",
+  note="Trusted: serde_json's visitor dispatch and chrono::NaiveDate::from_ymd_opt as modelled in Adapters.v (exercised on every case)."),
 }
 m={"version":1,
  "setup_cmd":"./setup.sh",
